@@ -31,7 +31,77 @@ def trees() -> Dict[str, TCls]:
         'or (unit %a) nat': t('or', u(f='a'), n()),
         'or (or (unit %a) (nat %b)) (or (string %c) (bytes %d))': t('or', t('or', u(f='a'), n(f='b')), t('or', s(f='c'), b(f='d'))),
         'or (or (unit %a) nat) (or %right (string %c) bytes)': t('or', t('or', u(f='a'), n()), t('or', s(f='c'), b(), f='right')),
+        # `default` and `root` used as names of inner nodes / leaves
+        'or (or %default (unit %a) (nat %b)) (string %c)': t('or', t('or', u(f='a'), n(f='b'), f='default'), s(f='c')),
+        'or (or %default unit nat) string': t('or', t('or', u(), n(), f='default'), s()),
+        'or (unit %root) (nat %b)': t('or', u(f='root'), n(f='b')),
+        'or (or (unit %a) (nat %default)) (string %c)': t('or', t('or', u(f='a'), n(f='default')), s(f='c')),
     }
+
+
+def all_trees(max_leaves: int = 4) -> Dict[str, TCls]:
+    """Every binary union shape with 2..max_leaves leaves and every placement of field annotations below the root (thorough tier);
+    one extra variant per shape names its first leaf `default`."""
+    import itertools
+    prims = ['unit', 'nat', 'string', 'bytes', 'int', 'mutez']
+
+    def shapes(n: int):
+        if n == 1:
+            yield None
+            return
+        for k in range(1, n):
+            for l in shapes(k):
+                for r in shapes(n - k):
+                    yield (l, r)
+
+    out: Dict[str, TCls] = {}
+    for n in range(2, max_leaves + 1):
+        for sh in shapes(n):
+            # count nodes below the root
+            def count(x):
+                return 1 if x is None else 1 + count(x[0]) + count(x[1])
+            nodes = count(sh) - 1
+            for marks in itertools.product([False, True], repeat=nodes):
+                for dflt in (False, True, 'inner'):
+                    inner_dflt = [False]
+                    it = iter(marks)
+                    leaf_i = [0]
+                    inner_i = [0]
+                    first_leaf = [True]
+
+                    def build(x, root=False):
+                        ann = False if root else next(it)
+                        if x is None:
+                            i = leaf_i[0]
+                            leaf_i[0] += 1
+                            name = 'abcdef'[i]
+                            if dflt is True and first_leaf[0]:
+                                name = 'default'
+                            first_leaf[0] = False
+                            return TCls(prims[i], [], name if ann else None)
+                        l = build(x[0])
+                        r = build(x[1])
+                        inner_i[0] += 1
+                        nm = f'in{inner_i[0]}'
+                        if dflt == 'inner' and not inner_dflt[0]:
+                            nm = 'default'
+                            if ann:
+                                inner_dflt[0] = True
+                        return TCls('or', [l, r], nm if ann else None)
+
+                    tree = build(sh, root=True)
+                    if dflt is True and tree_first_leaf_name(tree) != 'default':
+                        continue
+                    if dflt == 'inner' and not inner_dflt[0]:
+                        continue
+                    out[repr(tree)] = tree
+    return out
+
+
+def tree_first_leaf_name(tc: TCls):
+    while tc.prim == 'or':
+        tc = tc.args[0]
+    return tc.field_name
 
 
 def ref_entrypoints(root: TCls) -> Tuple[Dict[str, str], str]:
@@ -117,7 +187,10 @@ def run(repo: Repo, chk: Check) -> None:
     fp = repo.func(f'{PARAM}.from_parameters')
     tp = repo.func(f'{PARAM}.to_parameters')
     ntrees = 0
-    for name, root in trees().items():
+    forest = dict(trees())
+    if chk.tier == 'thorough':
+        forest.update(all_trees(4))
+    for name, root in forest.items():
         ntrees += 1
 
         def mk_interp():
@@ -191,7 +264,7 @@ def run(repo: Repo, chk: Check) -> None:
         res = mk_interp().run_paths(lambda i: i.call_function(FuncRef(fp, create(i), True), [{'entrypoint': 'no_such_entrypoint', 'value': Sym('A')}], {}, None, force_inline=True))
         chk.ob('R-PATH', fp.qualname, bool(res) and all(p.outcome == 'raise' for p in res), f'{name}: unknown entrypoint rejected', fp.loc,
                what='an unknown entrypoint name is accepted')
-    chk.minimum('parameter type trees', ntrees, 10)
+    chk.minimum('parameter type trees', ntrees, 14)
 
 
 def controls(chk: Check) -> None:
